@@ -92,6 +92,17 @@ fn c18_conv_metadata() {
 
 static C: Rec = Rec::new();
 
+/// Forces the five per-level `Lazy<Fields>` of tracing-log through the public API with
+/// concrete levels, so that the harness proper starts from the steady state "field keys
+/// initialised" (the cold start is covered per level by the `*_cold_*` harnesses).
+fn warm() {
+    let _ = log::Metadata::builder().level(log::Level::Error).target("w").build().as_trace();
+    let _ = log::Metadata::builder().level(log::Level::Warn).target("w").build().as_trace();
+    let _ = log::Metadata::builder().level(log::Level::Info).target("w").build().as_trace();
+    let _ = log::Metadata::builder().level(log::Level::Debug).target("w").build().as_trace();
+    let _ = log::Metadata::builder().level(log::Level::Trace).target("w").build().as_trace();
+}
+
 #[derive(Clone, Copy, PartialEq)]
 enum Entry {
     /// `<LogTracer as log::Log>::log` on `LogTracer::new()`
@@ -113,6 +124,13 @@ struct Outcome {
 
 /// Builds one symbolic record, sends it through `entry`, returns what the oracle needs.
 fn bridge(entry: Entry) -> Outcome {
+    bridge_from(entry, true)
+}
+
+fn bridge_from(entry: Entry, warm_start: bool) -> Outcome {
+    if warm_start {
+        warm();
+    }
     let rank = any_level_rank();
     let mut tb = [0u8; SMAX];
     let target = any_ascii(&mut tb);
@@ -278,4 +296,277 @@ fn c18_reach() {
     kani::assume(C.events.load(Relaxed) == 1 && o.has_file && o.has_line && o.has_module && o.class == 1);
     kani::assume(C.bad.load(Relaxed) == 0);
     assert!(false);
+}
+
+/// cold start: the per-level field keys are initialised lazily by the record itself
+#[kani::proof]
+#[kani::unwind(17)]
+#[kani::stub(std::rt::thread_cleanup, noop)]
+#[kani::stub(core::fmt::write, fmt_write_stub)]
+fn c18_bridge_tracer_cold() {
+    tracing_core::__verif::set_max(LevelFilter::TRACE);
+    let o = bridge_from(Entry::Tracer, false);
+    let want = C.verdict(o.rank, o.class);
+    check_bridge(&o, want);
+    kani::cover!(want);
+    kani::cover!(!want);
+    kani::cover!(want && o.has_file);
+    kani::cover!(want && !o.has_file);
+}
+
+// ================================================================ (d) tracing -> log
+
+static LOGGER: RecLogger = RecLogger::new();
+
+/// `log::set_logger` succeeds once per process; every harness is a fresh process state.
+fn install_logger(max: log::LevelFilter) {
+    let l: &'static dyn log::Log = &LOGGER; // run-time unsizing coercion (vtable hint)
+    assert!(log::set_logger(l).is_ok());
+    log::set_max_level(max);
+}
+
+fn ev_error() {
+    tracing::event!(Level::ERROR, "msg");
+}
+fn ev_warn() {
+    tracing::event!(Level::WARN, "msg");
+}
+fn ev_info() {
+    tracing::event!(Level::INFO, flag = true, "msg");
+}
+fn ev_debug() {
+    tracing::event!(Level::DEBUG, "msg");
+}
+fn ev_trace() {
+    tracing::event!(Level::TRACE, "msg");
+}
+fn emit_event(rank: u8) {
+    match rank {
+        1 => ev_error(),
+        2 => ev_warn(),
+        3 => ev_info(),
+        4 => ev_debug(),
+        _ => ev_trace(),
+    }
+}
+
+fn new_span(rank: u8) -> tracing::Span {
+    match rank {
+        1 => tracing::span!(Level::ERROR, "s"),
+        2 => tracing::span!(Level::WARN, "s"),
+        3 => tracing::span!(Level::INFO, "s"),
+        4 => tracing::span!(Level::DEBUG, "s"),
+        _ => tracing::span!(Level::TRACE, "s"),
+    }
+}
+
+/// no collector ever installed: an event at each level emits exactly one log record with
+/// the mapped level and the callsite's target, provided `log`'s own max level and the
+/// logger's `enabled` let it through
+#[kani::proof]
+#[kani::unwind(23)]
+#[kani::stub(std::rt::thread_cleanup, noop)]
+#[kani::stub(core::fmt::write, fmt_write_stub)]
+fn c18_rev_event() {
+    let lm = any_filter_rank();
+    install_logger(l_filter(lm));
+    let accept: bool = kani::any();
+    LOGGER.accept.store(accept as u8, Relaxed);
+    assert!(!dispatch::has_been_set());
+    let r = any_level_rank();
+    emit_event(r);
+    let want = r <= lm && accept;
+    assert!(LOGGER.count() == if want { 1 } else { 0 });
+    if want {
+        assert!(LOGGER.got(0, r, T_CALLSITE));
+        assert!(LOGGER.has_loc[0].load(Relaxed) == 1);
+    }
+    if r > lm {
+        assert!(LOGGER.asked.load(Relaxed) == 0);
+    }
+    assert!(!dispatch::has_been_set());
+    kani::cover!(want && r == 1);
+    kani::cover!(want && r == 3);
+    kani::cover!(want && r == 5);
+    kani::cover!(!want && r > lm);
+    kani::cover!(!want && !accept && r <= lm);
+}
+
+/// explicit `target:` is the record's target
+#[kani::proof]
+#[kani::unwind(23)]
+#[kani::stub(std::rt::thread_cleanup, noop)]
+#[kani::stub(core::fmt::write, fmt_write_stub)]
+fn c18_rev_event_target() {
+    install_logger(log::LevelFilter::Trace);
+    tracing::event!(target: "ct", Level::WARN, "msg");
+    assert!(LOGGER.count() == 1);
+    assert!(LOGGER.got(0, 2, T_CUSTOM));
+    kani::cover!(LOGGER.count() == 1);
+}
+
+/// no collector ever installed: span new / enter / exit / close emit one record each
+#[kani::proof]
+#[kani::unwind(23)]
+#[kani::stub(std::rt::thread_cleanup, noop)]
+#[kani::stub(core::fmt::write, fmt_write_stub)]
+fn c18_rev_span() {
+    install_logger(log::LevelFilter::Trace);
+    assert!(!dispatch::has_been_set());
+    let r = any_level_rank();
+    let span = new_span(r);
+    assert!(LOGGER.count() == 1);
+    assert!(LOGGER.got(0, r, T_LIFECYCLE));
+    let e = span.enter();
+    assert!(LOGGER.count() == 2);
+    assert!(LOGGER.got(1, 5, T_ACTIVITY));
+    drop(e);
+    assert!(LOGGER.count() == 3);
+    assert!(LOGGER.got(2, 5, T_ACTIVITY));
+    drop(span);
+    assert!(LOGGER.count() == 4);
+    assert!(LOGGER.got(3, 5, T_LIFECYCLE));
+    assert!(!dispatch::has_been_set());
+    kani::cover!(r == 1);
+    kani::cover!(r == 5);
+}
+
+/// a span with a field: the creation record carries the callsite's target
+#[kani::proof]
+#[kani::unwind(23)]
+#[kani::stub(std::rt::thread_cleanup, noop)]
+#[kani::stub(core::fmt::write, fmt_write_stub)]
+fn c18_rev_span_fields() {
+    install_logger(log::LevelFilter::Trace);
+    let span = tracing::span!(Level::INFO, "s", flag = true);
+    assert!(LOGGER.count() == 1);
+    assert!(LOGGER.got(0, 3, T_CALLSITE));
+    drop(span);
+    assert!(LOGGER.count() == 2);
+    assert!(LOGGER.got(1, 5, T_LIFECYCLE));
+    kani::cover!(LOGGER.count() == 2);
+}
+
+/// once `set_default` has run (EXISTS), nothing is emitted any more, whether or not the
+/// collector is still installed
+#[kani::proof]
+#[kani::unwind(23)]
+#[kani::stub(std::rt::thread_cleanup, noop)]
+#[kani::stub(core::fmt::write, fmt_write_stub)]
+fn c18_rev_after_set() {
+    install_logger(log::LevelFilter::Trace);
+    let d = tracing_core::__verif::dispatch_unregistered(&C);
+    let g = dispatch::set_default(&d);
+    let keep: bool = kani::any();
+    let g = if keep { Some(g) } else { drop(g); None };
+    assert!(dispatch::has_been_set());
+    let r = any_level_rank();
+    emit_event(r);
+    let span = new_span(r);
+    {
+        let _e = span.enter();
+    }
+    drop(span);
+    assert!(LOGGER.count() == 0);
+    assert!(LOGGER.asked.load(Relaxed) == 0);
+    drop(g);
+    kani::cover!(keep && r == 3);
+    kani::cover!(!keep && r == 5);
+}
+
+/// vacuity twin of the reverse direction
+#[kani::proof]
+#[kani::unwind(23)]
+#[kani::stub(std::rt::thread_cleanup, noop)]
+#[kani::stub(core::fmt::write, fmt_write_stub)]
+fn c18_rev_reach() {
+    install_logger(log::LevelFilter::Trace);
+    let r = any_level_rank();
+    emit_event(r);
+    let span = new_span(r);
+    drop(span);
+    kani::assume(LOGGER.count() == 3 && LOGGER.got(0, r, T_CALLSITE) && LOGGER.got(1, r, T_LIFECYCLE));
+    assert!(false);
+}
+
+/// run-time `&MacroCallsite as &dyn Callsite` coercion: the macros' own coercion sits in
+/// a `static` initialiser, which `-Z restrict-vtable` does not see
+fn vtable_hint() {
+    use tracing::__macro_support::MacroCallsite;
+    static __CALLSITE: MacroCallsite = tracing::callsite2! {
+        name: "d", kind: tracing_core::Kind::EVENT, target: "t", level: Level::TRACE, fields:
+    };
+    let c: &'static dyn Callsite = &__CALLSITE;
+    kani::assume(c.metadata().name().len() == 1);
+}
+
+fn any_interest() -> (u8, tracing_core::Interest) {
+    let i: u8 = kani::any();
+    kani::assume(i < 3);
+    (
+        i,
+        match i {
+            0 => tracing_core::Interest::never(),
+            1 => tracing_core::Interest::sometimes(),
+            _ => tracing_core::Interest::always(),
+        },
+    )
+}
+
+/// no collector ever installed, but the tracing max level and the callsite's cached
+/// interest are arbitrary: still exactly one record per event (the enabled and the
+/// disabled arm of `event!` both log)
+#[kani::proof]
+#[kani::unwind(23)]
+#[kani::stub(std::rt::thread_cleanup, noop)]
+#[kani::stub(core::fmt::write, fmt_write_stub)]
+fn c18_rev_event_cached() {
+    vtable_hint();
+    install_logger(log::LevelFilter::Trace);
+    tracing_core::__verif::set_max(LevelFilter::TRACE);
+    ev_info(); // first hit: registers in the (empty) registry
+    assert!(LOGGER.count() == 1);
+    let (i, interest) = any_interest();
+    tracing_core::__verif::for_each_registered_callsite(|c| c.set_interest(interest.clone()));
+    let m = any_filter_rank();
+    tracing_core::__verif::set_max(t_filter(m));
+    ev_info();
+    assert!(LOGGER.count() == 2);
+    assert!(LOGGER.got(0, 3, T_CALLSITE));
+    assert!(LOGGER.got(1, 3, T_CALLSITE));
+    assert!(!dispatch::has_been_set());
+    kani::cover!(i == 2 && m >= 3); // enabled arm
+    kani::cover!(i == 0); // disabled arm
+    kani::cover!(i == 1 && m == 5);
+}
+
+/// a collector is installed and the event is (or is not) delivered to it: the logger
+/// sees nothing either way, and the collector does not take it for a log record
+#[kani::proof]
+#[kani::unwind(23)]
+#[kani::stub(std::rt::thread_cleanup, noop)]
+#[kani::stub(core::fmt::write, fmt_write_stub)]
+fn c18_rev_after_set_cached() {
+    vtable_hint();
+    install_logger(log::LevelFilter::Trace);
+    tracing_core::__verif::set_max(LevelFilter::TRACE);
+    C.any_table();
+    let d = tracing_core::__verif::dispatch_unregistered(&C);
+    let _g = dispatch::set_default(&d);
+    ev_info(); // first hit: registers
+    let (i, interest) = any_interest();
+    tracing_core::__verif::for_each_registered_callsite(|c| c.set_interest(interest.clone()));
+    let before = C.events.load(Relaxed);
+    ev_info();
+    let delivered = C.events.load(Relaxed) - before;
+    assert!(LOGGER.count() == 0);
+    assert!(LOGGER.asked.load(Relaxed) == 0);
+    let want = i != 0 && (i == 2 || C.verdict(3, target_class(CALLSITE_TARGET)));
+    assert!(delivered == if want { 1 } else { 0 });
+    // a macro event is never mistaken for a bridged log record
+    assert!(C.log_events.load(Relaxed) == 0);
+    kani::cover!(want && i == 1);
+    kani::cover!(want && i == 2);
+    kani::cover!(!want && i == 1);
+    kani::cover!(i == 0);
 }
